@@ -20,10 +20,13 @@ from harness.pool import pmap
 
 PROP = "C07"
 
-ALL_ROUTES = '{"topo","topoE","fv","ugrid"}'
+ALL_ROUTES = '{"topo","topoE","fv","ugrid","ufile"}'
 INVS = ["TypeOK", "TemplatesConstant", "Encodes", "MetadataClosed", "Serialisable", "WellFormedOutput", "EncodedFaces", "RoundTrip",
         "HistoryIndependent", "FunctionOfSource", "DialectRoundTrip"]
 
+ATTRS = ["n_nodes_per_face", "edge_node_connectivity", "face_edge_connectivity", "edge_face_connectivity", "node_face_connectivity",
+         "face_face_connectivity", "node_x", "node_lon", "face_lon", "face_x", "edge_lon", "edge_x", "face_areas", "bounds",
+         "edge_node_distances", "edge_face_distances", "hole_edge_indices", "edge_node_z"]
 UNI = ["cube", "octahedron", "tetrahedron", "rhombic_dodecahedron", "tetrakis_cube"]
 MIX = ["cuboctahedron", "truncated_cube", "truncated_cube_split", "truncated_octahedron", "truncated_octahedron_split", "rhombicuboctahedron"]
 
@@ -50,7 +53,6 @@ def cfg(mech, maxops, maxexp, r1, s1, r2, s2, io, invs=(), view=None, init="Init
 
 # ----------------------------------------------------------------------------- generation
 _EDGE = re.compile(r'^(-?\d+) -> (-?\d+) \[label="(.*?)",color')
-_NODE = re.compile(r'^(-?\d+) \[label="(.*?)"(,style = filled)?(,tooltip=.*)?\]')
 
 
 def _call_of(label):
@@ -87,10 +89,9 @@ def transition_cover(dot_path):
             if m:
                 succ.setdefault(m.group(1), []).append((m.group(2), m.group(3)))
                 continue
-            if "style = filled" in line:
-                m = _NODE.match(line)
-                if m:
-                    inits[m.group(1)] = _desc_of(m.group(2))
+            if line.rstrip().endswith('",style = filled]') and ' [label="' in line:
+                a = line.index(' [label="')
+                inits[line[:a]] = _desc_of(line[a + 9 : line.rindex('",style = filled]')])
     parent = {}
     depth = {}
     order = []
@@ -153,6 +154,22 @@ def parse_cex(out):
     return res
 
 
+def cex_classes(ctx, mech, maxops, r1, s1, r2, s2, io, what):
+    """Violating histories of EncodeLazy(mech), one class per (clause, detail, format, route, size mix, length)."""
+    r = ctx.tlc_ok("EncodeLazy", cfg(mech, maxops, 2, r1, s1, r2, s2, io, ["EmitCex"], "CexView"), what=what, workers=8, timeout=3000)
+    allc = parse_cex(r.out)
+    classes = {}
+    for c in allc:
+        for cl, k, det in c["bad"]:
+            enc = [x for x in c["calls"] if x[0] == "ToXarray"]
+            g, fmt = (enc[k - 1][1], enc[k - 1][2]) if 0 < k <= len(enc) else (c["calls"][-1][1] if isinstance(c["calls"][-1][1], str) else "g1", "")
+            key = (cl, det, fmt, c["desc"][g]["route"], c["desc"][g]["shape"], len(c["calls"]))
+            classes.setdefault(key, []).append(c)
+    for key in classes:
+        classes[key].sort(key=lambda c: (len(c["calls"]), str(c["calls"])))
+    return classes, len(allc)
+
+
 def pick_entries(desc, rng, names_fixed=None):
     out = {}
     used = set()
@@ -178,12 +195,15 @@ def finish_calls(calls, rng, sweep=True):
             c = c[:3] + ["encode_as" if rng.random() < 0.25 else "to_xarray"]
         out.append(c)
     if sweep and opened:
-        last = [c[1] for c in out if c[0] != "Open"]
-        g = last[-1] if last else opened[-1]
+        g = out[-1][1]
         done = {(c[1], c[2]) for k, c in enumerate(out) if c[0] == "ToXarray" and k == len(out) - 1}
         for fmt in ("ugrid", "exodus", "scrip"):
             if (g, fmt) not in done:
                 out.append(["ToXarray", g, fmt, "encode_as" if rng.random() < 0.25 else "to_xarray"])
+        # what this grid's calls left behind must not show in another grid's encoding
+        for h in opened:
+            if h != g:
+                out.append(["ToXarray", h, "ugrid", "to_xarray"])
     return out
 
 
@@ -318,58 +338,56 @@ def run(ctx):
     # 1. the specification on its own: Mech_intended satisfies every clause (bounded, exhaustive)
     if thorough:
         ctx.tlc_ok("EncodeLazy", cfg("intended", 4, 2, ALL_ROUTES, '{"uni","mix"}', ALL_ROUTES, '{"uni","mix"}', True, INVS, "NoHist"),
-                   what="Mech_intended: all clauses, 64 scenarios, histories <= 4 calls", workers=8, timeout=3000)
+                   what="Mech_intended: all clauses, 100 scenarios, histories <= 4 calls", workers=8, timeout=3000)
         ctx.tlc_ok("EncodeLazy", cfg("intended", 6, 3, '{"topo","fv"}', '{"mix"}', '{"topoE"}', '{"uni"}', True, INVS, "NoHist"),
                    what="Mech_intended: all clauses, 2 scenarios, histories <= 6 calls, 3 exports", workers=8, timeout=3000)
     else:
-        ctx.tlc_ok("EncodeLazy", cfg("intended", 4, 2, ALL_ROUTES, '{"uni","mix"}', '{"topoE","fv"}', '{"uni"}', True, INVS, "NoHist"),
-                   what="Mech_intended: all clauses, 16 scenarios, histories <= 4 calls", workers=8, timeout=1500)
+        ctx.tlc_ok("EncodeLazy", cfg("intended", 4, 2, ALL_ROUTES, '{"uni","mix"}', '{"topoE"}', '{"uni"}', True, INVS, "NoHist"),
+                   what="Mech_intended: all clauses, 10 scenarios, histories <= 4 calls", workers=8, timeout=1500)
 
-    # 2. model sensitivity: every single departure from the intended mechanism, and every reverted
-    #    fix, breaks a clause in the model
-    variants = ["rev_d3a60c34", "rev_ef0ca9d1", "rev_e3484517", "rev_ea0c8869"]
-    if thorough:
-        variants += ["only_alias", "only_helper", "only_coords", "only_scrip", "only_exofill", "only_exostart", "only_exoreader"]
-    broke = {}
-    for v in variants:
-        base = "observed" if v.startswith("rev_") else "intended"
-        invs = [i for i in INVS if i not in ("FunctionOfSource",)]
-        if base == "observed":
-            # clauses the observed mechanism already breaks are not evidence for the revert
-            invs = {"rev_d3a60c34": ["TemplatesConstant"], "rev_ef0ca9d1": ["TemplatesConstant"], "rev_e3484517": ["EncodedFaces"],
-                    "rev_ea0c8869": []}[v]
-            if v == "rev_ea0c8869":
-                # 'Encodes' is already false for SCRIP on mixed grids: restrict the scenario to uniform grids
-                r = ctx.tlc("EncodeLazy", cfg(v, 3, 1, '{"topo","ugrid"}', '{"uni"}', '{"topoE"}', '{"uni"}', False, ["Encodes"], "NoHist"),
-                            what="model mutant %s must break a clause" % v, workers=4, count=False, timeout=900)
-                broke[v] = r.violated
-                continue
-        r = ctx.tlc("EncodeLazy", cfg(v, 4, 2, ALL_ROUTES, '{"uni","mix"}', '{"topoE"}', '{"uni"}', True, invs, "NoHist"),
-                    what="model mutant %s must break a clause" % v, workers=4, count=False, timeout=900)
-        broke[v] = r.violated
-    ctx.note("model_mutants_broken_clause", broke)
-    dead = [v for v, c in broke.items() if not c]
-    if dead:
-        raise Machinery("model mutants not distinguished by any invariant: %s" % dead)
-
-    # 3. Mech_observed: TLC produces the violating histories (directed tests)
-    r = ctx.tlc_ok("EncodeLazy", cfg("observed", 5 if thorough else 4, 2, ALL_ROUTES, '{"uni","mix"}', '{"topoE"}', '{"uni"}', True, ["EmitCex"], "CexView"),
-                   what="Mech_observed: enumerate violating histories", workers=8, timeout=3000)
-    cex_all = parse_cex(r.out)
-    classes = {}
-    for c in cex_all:
-        for cl, k, det in c["bad"]:
-            enc = [x for x in c["calls"] if x[0] == "ToXarray"]
-            g, fmt = (enc[k - 1][1], enc[k - 1][2]) if 0 < k <= len(enc) else ("g1", "")
-            key = (cl, det, fmt, c["desc"][g]["route"], c["desc"][g]["shape"], tuple(x[0] for x in c["calls"]))
-            classes.setdefault(key, []).append(c)
+    # 2. Mech_observed: TLC produces the violating histories (directed tests)
+    per = 2 if thorough else 1
+    classes, n_states = cex_classes(ctx, "observed", 5 if thorough else 4, ALL_ROUTES, '{"uni","mix"}', '{"topoE"}', '{"uni"}', True,
+                                    "Mech_observed: enumerate violating histories")
     cex = []
     for key in sorted(classes):
-        cs = sorted(classes[key], key=lambda c: (len(c["calls"]), str(c["calls"])))
-        for c in cs[: (2 if thorough else 1)]:
-            cex.append(dict(c, expect=(key[0], key[1])))
-    ctx.note("observed_model_violating_states", len(cex_all))
+        for c in classes[key][:per]:
+            cex.append(dict(c, expect=(key[0], key[1]), origin="cex"))
+    ctx.note("observed_model_violating_states", n_states)
     ctx.note("observed_model_violation_classes", len(classes))
+    seen5 = {k[:5] for k in classes}
+
+    # 3. every repaired defect is a mechanism variant of the model: TLC must find histories on which the variant breaks a
+    #    clause that Mech_observed does not break; these histories are replayed as regression tests.  (thorough: also
+    #    every single departure from the intended mechanism must break an invariant.)
+    wide = thorough
+    plans = {
+        "rev_d3a60c34": (4, '{"topo","fv","ufile"}' if wide else '{"topo"}', '{"uni","mix"}' if wide else '{"uni"}', False),
+        "rev_ef0ca9d1": (4, '{"topo","fv","ufile"}' if wide else '{"topo"}', '{"uni","mix"}' if wide else '{"uni"}', False),
+        "rev_e3484517": (3 if wide else 2, '{"topo","topoE"}' if wide else '{"topo"}', '{"uni"}', False),
+        "rev_ea0c8869": (3, '{"topo","ugrid","fv"}' if wide else '{"topo","ugrid"}', '{"uni"}', False),
+    }
+    regress = []
+    broke = {}
+    for v, (mo, r1, s1, io) in plans.items():
+        cl_v, _ = cex_classes(ctx, v, mo, r1, s1, '{"topoE"}', '{"uni"}', io, "model variant %s (reverted fix): histories that break a clause" % v)
+        new = sorted(k for k in cl_v if k[:5] not in seen5)
+        broke[v] = sorted({k[0] for k in new})
+        if not new:
+            raise Machinery("model variant %s breaks no clause beyond Mech_observed" % v)
+        for key in new:
+            for c in cl_v[key][:per]:
+                regress.append(dict(c, expect=(key[0], key[1]), origin="regress:" + v))
+    if thorough:
+        for v in ["only_alias", "only_helper", "only_coords", "only_scrip", "only_exofill", "only_exostart", "only_exoreader", "only_filefill"]:
+            invs = [i for i in INVS if i != "FunctionOfSource"]
+            r = ctx.tlc("EncodeLazy", cfg(v, 4, 2, ALL_ROUTES, '{"uni","mix"}', '{"topoE"}', '{"uni"}', True, invs, "NoHist"),
+                        what="model mutant %s must break a clause" % v, workers=4, count=False, timeout=900)
+            broke[v] = r.violated
+            if not r.violated:
+                raise Machinery("model mutant %s is not distinguished by any invariant" % v)
+    ctx.note("model_variants_broken_clauses", broke)
+    ctx.note("regression_histories", len(regress))
 
     # 4. transition cover of the call graph (Mech_intended), as test behaviours
     gens = []
@@ -387,7 +405,7 @@ def run(ctx):
         n_nodes += nn
         gens += bs
     ctx.note("cover_graph", {"abstract_states": n_nodes, "transitions": n_edges, "covering_behaviours": len(gens)})
-    budget = 12000 if thorough else 900
+    budget = 8000 if thorough else 450
     if len(gens) > budget:
         # keep every behaviour that encodes in its prefix or touches both grids; sample the rest
         keep = [b for b in gens if sum(1 for c in b["calls"] if c[0] == "ToXarray") >= 1 and len({c[1] for c in b["calls"]}) == 2]
@@ -402,8 +420,9 @@ def run(ctx):
 
     behs = []
     t = 0
-    for origin, src in (("cex", cex), ("cover", gens)):
+    for src in (cex, regress, [dict(b, origin="cover") for b in gens]):
         for b in src:
+            origin = b["origin"]
             t += 1
             ents = pick_entries(b["desc"], rng)
             behs.append({"t": t, "origin": origin, "desc": b["desc"], "entries": ents, "names": {g: catalog.eid(e) for g, e in ents.items()},
@@ -423,7 +442,7 @@ def run(ctx):
     for k in range(24 if thorough else 6):
         nx, ny = rng.randint(3, 14 if thorough else 8), rng.randint(3, 14 if thorough else 8)
         lon, lat, faces = meshgen.planar_mixed(nx, ny, rng, holes=rng.choice([0.0, 0.2]))
-        route = x_c07.ROUTES[k % 4]
+        route = x_c07.ROUTES[k % 5]
         t += 1
         pre = rng.sample(["edge_node_connectivity", "face_lon", "node_x", "face_areas", "node_face_connectivity", "edge_face_distances"], 2)
         calls = [["Open", "g1"]] + [["Access", "g1", a] for a in pre]
@@ -432,8 +451,14 @@ def run(ctx):
                     "names": {"g1": "planar%dx%d#%d" % (nx, ny, k)}, "routes": {"g1": route}, "calls": finish_calls(calls, rng), "work": ctx.work})
 
     # 6. replay into the real library, record, validate
-    results = pmap(x_c07.replay_behaviour, behs)
-    results_big = pmap(x_c07.replay_behaviour, big, nproc=min(4, len(big)))
+    # compile the library's jitted kernels once, in the parent, so that forked workers inherit them
+    warm = {"t": 0, "desc": {}, "entries": {"g1": catalog.entries(name="cuboctahedron", rot=1, cut=0)[0]}, "routes": {"g1": "topo"}, "work": ctx.work,
+            "calls": [["Open", "g1"]] + [["Access", "g1", a] for a in ATTRS] + [["ToXarray", "g1", f] for f in ("ugrid", "exodus", "scrip")]}
+    w = x_c07.replay_behaviour(warm)
+    if w["skipped"]:
+        raise Machinery("warm-up behaviour failed: %s" % w["skipped"])
+    both = pmap(x_c07.replay_behaviour, behs + big)
+    results, results_big = both[: len(behs)], both[len(behs) :]
     skipped = {}
     for b, r in list(zip(behs, results)) + list(zip(big, results_big)):
         if r["skipped"]:
@@ -459,18 +484,22 @@ def run(ctx):
         nontrivial = len(pre) > 1
         ctx.count(len(r["lines"]), (tuple(sorted((g, b["desc"][g]["route"], b["names"][g]) for g in b["names"])), pre, encs) if nontrivial else None)
     reproduced = 0
+    inapplicable = 0
     not_reproduced = []
     for b, r in zip(behs, results):
         if b["origin"] != "cex" or r["skipped"]:
             continue
         got = {(cl, det) for (_, _, cl, _, det) in viol.get(b["t"], [])}
         want = b["expect"]
-        if want in got or (want[0], "file:" + want[1]) in got:
+        if want in got:
             reproduced += 1
+        elif any(L["ev"] == "Access" and L["status"] == "raise" for L in r["lines"]):
+            inapplicable += 1  # an attribute the history needs could not be built on this mesh (not C07's concern)
         else:
             not_reproduced.append({"expected": want, "calls": b["calls"], "routes": b["routes"], "meshes": b["names"], "got": sorted(got)})
     ctx.note("observed_model_histories_replayed", sum(1 for b in behs if b["origin"] == "cex"))
     ctx.note("observed_model_histories_reproduced", reproduced)
+    ctx.note("observed_model_histories_inapplicable_on_mesh", inapplicable)
     if not_reproduced:
         print("MODEL-DRIFT: %d histories predicted by Mech_observed were not reproduced on the code, e.g. %s" % (len(not_reproduced), json.dumps(not_reproduced[0])[:400]))
         ctx.note("observed_model_not_reproduced", not_reproduced[:5])
@@ -493,7 +522,7 @@ def run(ctx):
         "projected abstract state; TLC (TraceEncode) consumes every trace against EncodeLazy(Mech_intended), decoding every export by the format's "
         "own conventions. Non-trivial = distinct (meshes+routes, non-encoding calls, encodings) with at least one call besides Open before encoding."
     )
-    for b, r in list(zip(behs, results))[:1] + list(zip(behs, results))[len(cex) : len(cex) + 2]:
+    for b, r in list(zip(behs, results))[:1] + list(zip(behs, results))[len(cex) + len(regress) : len(cex) + len(regress) + 2]:
         ctx.sample({"meshes": b["names"], "routes": b["routes"], "calls": b["calls"], "violations": [(x[2], x[3], x[4]) for x in viol.get(b["t"], [])][:6]})
     ctx.assumptions += [
         "netCDF4 + xarray writer/reader of plain variables (the file E-record is read back with decode_cf=False)",
